@@ -150,7 +150,7 @@ def run_case(ctx, R, rng, FatFileSystem, ft, free, extra, fsinfo, label, mkop, k
             pass
 
 
-def root_full_case(ctx, R, rng, FatFileSystem, ft, free_slots):
+def root_full_case(ctx, R, rng, FatFileSystem, ft, free_slots, how=0):
     """16-slot root directory with `free_slots` unused slots; creating a name that needs 4 slots"""
     g = fatimg.Geometry(ft, 40, spc=1, bps=512, nfats=2, root_entries=16, type_string=True)
     b = fatimg.Builder(g, rng)
@@ -162,7 +162,10 @@ def root_full_case(ctx, R, rng, FatFileSystem, ft, free_slots):
         b.add(b.tree, nm, (nm.split('.')[0].encode().ljust(8), b'BIN'), data=data, lfn=False)
         t.root['children'][nm] = {'kind': 'file', 'name': nm, 'data': bytearray(data)}
         k += 1
-    op = dict(op='write', path='/a name needing four slots in all.txt', data=b'payload', via='open')   # 3 long-name records + 1
+    # 3 long-name records + 1, created in every way an entry can be created
+    path = '/a name needing four slots in all.txt'
+    op = [dict(op='write', path=path, data=b'payload', via='open'), dict(op='mkdir', path=path), dict(op='touch', path=path),
+          dict(op='write', path=path, data=b'payload', via='bytes'), dict(op='append', path=path, data=b'payload')][how]
     buf = bytearray(b'\xA5' * GUARD) + b.img + bytearray(b'\x5A' * GUARD)
     info = dict(fat_type=ft, free_root_slots=free_slots, op=jsonable_op(op), case='root-full')
     with warnings.catch_warnings():
@@ -172,7 +175,7 @@ def root_full_case(ctx, R, rng, FatFileSystem, ft, free_slots):
         after = copy.deepcopy(t)
         fatops.apply_model(after, op)
         got = fatops.apply_impl(fs, op)
-        ctx.case((ft, 'root-full', free_slots), got == 'ENOSPC', f'root-full-{got}')
+        ctx.case((ft, 'root-full', free_slots, how), got == 'ENOSPC', f'root-full-{op["op"]}-{got}')
         vol = bytes(buf[GUARD:len(buf) - GUARD])
         # nobodd also writes an end-of-directory record after the new entries, so it needs one slot
         # more than the entries themselves; exactly 4 free slots may go either way
@@ -225,7 +228,8 @@ def run(ctx, build):
         # fixed-size root directory running out of slots
         if ft != 'fat32':
             for free_slots in (0, 1, 2, 3, 4, 5):
-                root_full_case(ctx, R, rng, FatFileSystem, ft, free_slots)
+                for how in range(5):
+                    root_full_case(ctx, R, rng, FatFileSystem, ft, free_slots, how)
     ctx.sample(dict(case='append', fat_type='fat12', free_clusters=1, payload_clusters=3))
 
 
